@@ -24,13 +24,20 @@ CONFIG = {
                   "path (rel_boundaries_utf8_partial - the divergence point may be inside a 2-, 3- or 4-octet character; the "
                   "excluded shape is exactly the witness of rel_boundaries_utf8_refuted), an IRI with the scheme, authority "
                   "and path of the base is ALWAYS answered with a reference, without exception (rel_same_doc_some = the "
-                  "full clause RelSameDoc), and so is every IRI sharing the base up to pseudoroot (rel_some_inside); (5) two "
-                  "INPUT-side round-trip theorems whose hypotheses mention base, IRI and limit only: rel_same_doc_inverse_partial "
-                  "(same scheme/authority/path and same query, or base without query: the reference returned resolves to "
-                  "the IRI) and rel_path_input_partial (region `pathInputCase`: rooted dot-free base path, common prefix "
-                  "ending strictly inside it at or after pseudoroot, plain remaining IRI path: a reference IS returned, "
-                  "resolves to the IRI, has no scheme/authority and at most `parents` leading '..'; ~1500 of 15k quick "
-                  "cases, printed as m.inpath, never excused). The model "
+                  "full clause RelSameDoc), and so is every IRI sharing the base up to pseudoroot (rel_some_inside); the UTF-8-shape "
+                  "hypothesis is DISCHARGED for every string (utf8_shape_of_every_string: utf8Shaped 0 (ofUtf8 x) for all "
+                  "x : String, from core's description of String.utf8EncodeChar) and shown necessary "
+                  "(rel_boundaries_needs_utf8_shape); (5) the WHOLE property (`Correct`: a reference is returned, RFC 3986 "
+                  "resolution gives back the IRI, no scheme/authority, at most `parents` leading '..') under hypotheses on "
+                  "base, limit and IRI ONLY - rel_input_partial over inputCase = S (same document: same query, or base "
+                  "without query, or IRI query not extending the base's) | P (dot-free base path with pseudoroot inside it - "
+                  "every rooted path, rel_pseudoroot_inside_rooted -, common prefix ending inside the path at/after "
+                  "pseudoroot, plain remaining IRI path: cleanSuffixes) | X (query-less directory base extended by a clean "
+                  "path) | E (empty base path, absolute-path continuation); 83% of the cleanCase cases of a quick run "
+                  "(m.inreg; the rest: '../'-prefixed tails starting with an empty or ':' segment), never excused; each "
+                  "hypothesis is shown necessary by a kernel-checked counterexample that is also replayed on the "
+                  "implementation (rel_input_needs_dotfree_base / _pseudoroot_inside / _inside_pseudoroot / "
+                  "_query_condition). The model "
                   "is the code by correspondence only: differential on Relativizer::new fields (public Debug output) and on "
                   "relativize outputs incl. panic kinds, over grammar-generated pairs and the closed family of DESIGN 4.17; "
                   "`cleanCase` itself is evaluated by the driver (m.clean; 43% of the returned references in a quick run, "
@@ -82,6 +89,10 @@ CONFIG["theorems"] = [
     "rel_inverse_partial", "rel_is_ref_partial", "rel_parents_partial",
     "rel_boundaries_utf8_refuted", "rel_boundaries_utf8_partial", "rel_same_doc_some",
     "rel_none_only_outside", "rel_some_inside", "rel_same_doc_inverse_partial", "rel_path_input_partial",
+    "utf8_shape_of_every_string", "rel_pseudoroot_inside_rooted", "rel_extension_input_partial",
+    "rel_empty_path_input_partial", "rel_input_partial", "rel_input_needs_dotfree_base",
+    "rel_input_needs_pseudoroot_inside", "rel_input_needs_inside_pseudoroot", "rel_input_needs_query_condition",
+    "rel_boundaries_needs_utf8_shape",
 ]
 
 
@@ -109,7 +120,7 @@ def _c17(failure):
     except ValueError:
         return None
     I, M = kv(failure["impl"]), kv(failure["model"])
-    if M.get("m.clean") == "1" or M.get("m.inpath") == "1":
+    if M.get("m.clean") == "1" or M.get("m.inpath") == "1" or M.get("m.inreg") == "1":
         return None          # nothing inside the proved regions is ever excused
     boundary = I.get("rel") == "panic" and I.get("pk") == "boundary" and M.get("pk") == "boundary"
     if ("m.tail" not in M or "m.ins" not in M) and not boundary:
